@@ -10,11 +10,15 @@ case kinds
           "reports": [[where, message, thresh], ...], "answers": [[name, url|null], ...]}
   {"k":"project", "mods":[[modname, source, parent|null, is_package], ...], "privacy":[[CLASS, pattern], ...],
    "files": {relpath: source} (added by path, in sorted order of the top-level entries),
-   "paths": [path relative to the repository root, ...] (real packages, read in place), "html": bool,
+   "paths": [path relative to the repository root, ...] (real packages, read in place),
+   "mode": one of intersphinx (--make-intersphinx only) | html (--make-html) | html+intersphinx | subject
+           (--make-html --html-subject s for s in "subjects") | summary (--make-html --html-summary-pages),
    "project": str, "version": str}
       builds a System, runs driver.make(system) with makeintersphinx, reads objects.inv back with
       pydoctor's SphinxInventory and with sphinx.util.inventory.InventoryFile
-      -> {"dump": subjects tree, "root_names": [...], "data": hex, "visible": [[fullName, url], ...],
+      -> {"dump": the subjects SphinxInventoryWriter.generate was called with, "make": what make() was asked and which
+          subjects it gave to writeIndividualFiles / generate, "documented": [[fullName, url]] objects whose page was
+          written by this run (HTML modes), "targets": per entry read back [name, location, file written, anchor present], "root_names": [...], "data": hex, "visible": [[fullName, url], ...],
           "pyd": {"exc","links","reports","answers"}, "sphinx": {"exc", "entries": [[type, name, uri, dispname], ...]},
           "writer_errors": n, "build_exc": null|str, "registry_agrees": bool}
       "visible": every object reachable through contents from system.rootobjects whose isVisible is true;
@@ -109,22 +113,67 @@ def attached(system, o):
     return any(r is o for r in system.rootobjects)
 
 
+MODES = ('intersphinx', 'html', 'html+intersphinx', 'subject', 'summary')
+
+
+def dump_subject(o):
+    """a subject of the writer: an Obj without parent, named by its qualified name, hidden = not isVisible"""
+    return [o.fullName(), tag_of(o), not o.isVisible, [dump(c) for c in o.contents.values()]]
+
+
+def anchor_in(page_text, anchor):
+    import html
+    from urllib.parse import unquote
+    a = unquote(anchor)
+    for cand in {a, html.escape(a, quote=True), html.escape(a, quote=False)}:
+        if ('id="%s"' % cand) in page_text or ('name="%s"' % cand) in page_text:
+            return True
+    return False
+
+
 def run_project(case):
     from pydoctor import driver
     from pydoctor.options import Options
+    from pydoctor.templatewriter import writer as tw
     tmp = Path(tempfile.mkdtemp(prefix='c17_'))
+    mode = case.get('mode') or ('html' if case.get('html') else 'intersphinx')
+    assert mode in MODES, mode
+    seen = {'html_subjects': None, 'inv_subjects': None, 'pages': []}
+    orig_one = tw.TemplateWriter._writeDocsForOne
+    orig_files = tw.TemplateWriter.writeIndividualFiles
+    orig_gen = pdsphinx.SphinxInventoryWriter.generate
+
+    def one(self, ob, fobj):
+        seen['pages'].append(ob)
+        return orig_one(self, ob, fobj)
+
+    def files_(self, obs):
+        obs = list(obs)
+        seen['html_subjects'] = obs
+        return orig_files(self, obs)
+
+    def gen(self, subjects, basepath):
+        subjects = list(subjects)
+        seen['inv_subjects'] = subjects
+        return orig_gen(self, subjects, basepath)
+    tw.TemplateWriter._writeDocsForOne = one
+    tw.TemplateWriter.writeIndividualFiles = files_
+    pdsphinx.SphinxInventoryWriter.generate = gen
     try:
         out = tmp / 'out'
         opts = Options.defaults()
         opts.privacy = [(getattr(model.PrivacyClass, c), p) for c, p in case.get('privacy', [])]
-        opts.makeintersphinx = True
-        opts.makehtml = bool(case.get('html'))
+        opts.makehtml = mode != 'intersphinx'
+        opts.makeintersphinx = mode in ('intersphinx', 'html+intersphinx')
+        if mode == 'subject':
+            opts.htmlsubjects = list(case['subjects'])
+        if mode == 'summary':
+            opts.htmlsummarypages = True
         opts.htmloutput = str(out)
         opts.projectname = case.get('project', 'proj')
         opts.projectversion = case.get('version', '1.0')
         logs = []
         system = model.System(opts)
-        orig_msg = system.msg
 
         def msg(section, m, thresh=0, **kw):
             logs.append([section, m, thresh])
@@ -151,6 +200,8 @@ def run_project(case):
             driver.make(system)
         except BaseException as e:  # noqa
             return {'build_exc': type(e).__name__ + ': ' + str(e)[:300]}
+        if seen['inv_subjects'] is None:
+            return {'build_exc': 'driver.make did not call SphinxInventoryWriter.generate in mode ' + mode}
         data = (out / 'objects.inv').read_bytes()
         base = 'http://h/b'
         pyd = observe_inventory([[base + '/objects.inv', data]], [])
@@ -163,8 +214,8 @@ def run_project(case):
                     sx['entries'].append([typ, name, item.uri, item.display_name])
         except BaseException as e:  # noqa
             sx['exc'] = type(e).__name__ + ': ' + str(e)[:200]
-        # every object reachable through `contents` from the subjects (hidden ones included), kept when the real
-        # isVisible property says so -- not the writer's pruned recursion
+        # every object reachable through `contents` from the ROOT objects (hidden ones included), kept when the real
+        # isVisible property says so -- not the writer's pruned recursion, and not make()'s choice of subjects
         reach = []
         todo = list(reversed(system.rootobjects))
         while todo:
@@ -173,16 +224,59 @@ def run_project(case):
             todo.extend(reversed(list(o.contents.values())))
         visible = [[o.fullName(), o.url] for o in reach if o.isVisible]
         registry = sorted(o.fullName() for o in system.allobjects.values() if o.isVisible and attached(system, o))
-        return {
-            'build_exc': None,
-            'dump': [dump(o) for o in system.rootobjects],
+        # what this run documented: objects whose own page was written by TemplateWriter._writeDocsForOne, and the
+        # members whose anchor is in such a page
+        res = {
+            'build_exc': None, 'mode': mode,
+            'dump': [dump_subject(o) for o in seen['inv_subjects']],
             'root_names': list(system.root_names),
             'project': system.projectname, 'version': system.options.projectversion,
             'data': data.hex(), 'visible': visible, 'pyd': pyd, 'sphinx': sx,
             'registry_agrees': registry == sorted(set(n for n, _ in visible)) and len(registry) == len(visible),
             'writer_errors': len([l for l in logs if l[0] == 'sphinx' and l[2] == -1]),
+            'make': {'makehtml': opts.makehtml is True, 'makeintersphinx': mode in ('intersphinx', 'html+intersphinx'),
+                     'htmlsubjects': list(case.get('subjects', [])) if mode == 'subject' else [],
+                     'summarypages': mode == 'summary',
+                     'roots': [o.fullName() for o in system.rootobjects],
+                     'html_subjects': None if seen['html_subjects'] is None else [o.fullName() for o in seen['html_subjects']],
+                     'inv_subjects': [o.fullName() for o in seen['inv_subjects']]},
         }
+        if opts.makehtml:
+            paged = set(id(o) for o in seen['pages'])
+            cache = {}
+
+            def page_text(fn):
+                if fn not in cache:
+                    f = out / fn
+                    cache[fn] = f.read_text(encoding='utf-8', errors='replace') if f.is_file() else None
+                return cache[fn]
+            documented = []
+            for o in reach:
+                if not o.isVisible:
+                    continue
+                if o.documentation_location is model.DocLocation.OWN_PAGE:
+                    if id(o) in paged:
+                        documented.append([o.fullName(), o.url])
+                else:
+                    po = o.parent
+                    if po is not None and id(po) in paged:
+                        pg, _, anc = o.url.partition('#')
+                        t = page_text(pg)
+                        if t is not None and anchor_in(t, anc):
+                            documented.append([o.fullName(), o.url])
+            targets = []
+            for n, _b, loc in pyd['links']:
+                pg, _, anc = loc.partition('#')
+                t = page_text(pg)
+                targets.append([n, loc, t is not None, (t is not None and (not anc or anchor_in(t, anc)))])
+            res['documented'] = documented
+            res['targets'] = targets
+            res['pages_written'] = len(seen['pages'])
+        return res
     finally:
+        tw.TemplateWriter._writeDocsForOne = orig_one
+        tw.TemplateWriter.writeIndividualFiles = orig_files
+        pdsphinx.SphinxInventoryWriter.generate = orig_gen
         shutil.rmtree(tmp, ignore_errors=True)
 
 
